@@ -24,6 +24,8 @@ Decided:
     aspect code: unused iff 0x0101, width = (b0 + 31) * 8, height = width * {10/16, 3/4, 4/5, 9/16}[b1 >> 6] computed
     multiply-first (exact for widths that are not multiples of 16 / 5); the detailed-timing parser over byte samples:
     active = low byte | (high nibble << 8) for horizontal (bytes 2, 4) and vertical (bytes 5, 7), None iff either is 0.
+ Z16 = C03.E5 / E9, Z17 = C03.E1 / E2, Z18 9P mount tag read inside the consistent-read closure (= C13.G3).  Z2 also decides which
+     cursor command an operation sends (UPDATE iff it uploads an image); Z3 also that the remembered rectangle is the created one.
 Not decided: exactly-once in-order frame delivery over completion orders; equality of returned values with device data.
 """
 from .common import *
